@@ -166,5 +166,33 @@ func main() {
 			}
 			t.Outcome("well-formed")
 		})
+
+		// One message of more fragments than a 16-bit counter holds (a one-byte payload per
+		// frame), then a short message from the same writer.
+		r.Part("E4-message-of-70001-fragments", func(t *explore.T) {
+			for _, client := range []bool{false, true} {
+				for _, ext := range []bool{false, true} {
+					for _, how := range []string{"Write", "ReadFrom"} {
+						if how == "Write" && !t.Thorough() {
+							continue // 70001 separately judged calls: thorough tier only
+						}
+						c := wops.Cfg{Ctor: "NewWriterBufferSize", N: 3, Client: client, Ext: ext, OpCode: ws.OpBinary}
+						var h []wops.Op
+						if how == "Write" {
+							for i := 0; i < 70001; i++ {
+								h = append(h, wops.Op{Kind: "Write", K: 1, Rel: "1"})
+							}
+						} else {
+							h = append(h, wops.Op{Kind: "ReadFrom", K: 70001, Rel: "70001"})
+						}
+						h = append(h, wops.Op{Kind: "Flush"}, wops.Op{Kind: "Write", K: 3, Rel: "3"})
+						t.DoN(70005, func() string {
+							return fmt.Sprintf("%s S=1: 70001 bytes through %s (one byte per frame); Flush; Write(3); Flush", c, how)
+						}, func() *explore.Fail { return runHistory(c, h) })
+					}
+				}
+			}
+			t.Outcome("well-formed")
+		})
 	})
 }
